@@ -686,7 +686,7 @@ def run_check(pid, tier, seed, replay):
             harness_err = "coq evaluation of cases failed: %s" % (e2[:2],)
             break
         fails += f2
-        if not replay:
+        if not replay and not os.environ.get("VERIF_KEEP_CASES"):
             shutil.rmtree(outdir, ignore_errors=True)
     evals = len(side_all)
 
